@@ -326,7 +326,7 @@ where for<'a> Sat9<'a>: Satisfier<Pk>
     for a in asset_subsets9(node, cap) {
         for mall in [false, true] {
             emit_bound::<Pk, Ctx>(out, ctx, node, &a, mall, false);
-            if ctx != CtxK::Tap && !a.ecdsa.is_empty() { emit_bound::<Pk, Ctx>(out, ctx, node, &a, mall, true); }
+            if ctx != CtxK::Tap && (!a.ecdsa.is_empty() || !a.rawsig.is_empty()) { emit_bound::<Pk, Ctx>(out, ctx, node, &a, mall, true); }
         }
     }
 }
@@ -353,8 +353,13 @@ fn asset_subsets9(node: &Node, cap: usize) -> Vec<Assets> {
 }
 
 fn static_lines<Pk: HKey9, Ctx: ScriptContext>(out: &mut Out, ctx: CtxK, node: &Node) {
-    let ms: Miniscript<Pk, Ctx> = match ast::to_ms(node) { Ok(m) => m, Err(e) => { out.count(&format!("static: rejected ({})", e.split(' ').next().unwrap_or(""))); return } };
     let w = node.wire();
+    let built = std::panic::catch_unwind(std::panic::AssertUnwindSafe(|| ast::to_ms::<Pk, Ctx>(node)));
+    // whether `from_ast` (bottom-up) accepts the script is compared with the model of the
+    // context rules (typing, key kinds, script-size limits on pk_cost, recursion depth)
+    out.line(&format!("C accept fromast {} {}", ctx.name(), w),
+        match &built { Ok(Ok(_)) => "ok", Ok(Err(_)) => "ERR", Err(_) => "PANIC" });
+    let ms: Miniscript<Pk, Ctx> = match built { Ok(Ok(m)) => m, _ => return };
     out.line(&format!("C ext {} {}", ctx.name(), w), &msops::show_ext(&ms.ext));
     out.line(&format!("C scriptsize {} {}", ctx.name(), w), &ms.script_size().to_string());
     let on = |x: Option<usize>| x.map(|v| v.to_string()).unwrap_or("none".into());
@@ -370,6 +375,14 @@ fn static_lines<Pk: HKey9, Ctx: ScriptContext>(out: &mut Out, ctx: CtxK, node: &
             out.line(&format!("C wrl {} {}", ctx.name(), w), if wrl { "1" } else { "0" });
             out.line(&format!("C rescheck {} consensus {}", ctx.name(), w), c);
             out.line(&format!("C rescheck {} sane {}", ctx.name(), w), sn);
+            // what the library DECLARES within the limits of the context has figures within them
+            // (with "figure >= measured" this is the compliance claim; judged without a model)
+            if wrl {
+                let mut f = m.split(' ');
+                out.line(&format!("J declared {} {} | pkc={} st={} sat={} mss={} mwe={} ssz={}", ctx.name(), w,
+                    ms.ext.pk_cost, ms.ext.static_ops, show_satdata(&ms.ext.sat_data),
+                    f.next().unwrap_or("none"), f.next().unwrap_or("none"), ms.script_size()), "ok");
+            }
         }
         Err(_) => out.line(&format!("J nopanic static/api {} {} PANIC", ctx.name(), w), "ok"),
     }
@@ -480,6 +493,10 @@ fn regression_corpus() -> Vec<(&'static str, String)> {
         ("ET", "or_d(thresh(2,and_b(c(pk_k(K0)),s(c(pk_k(K1)))),a(0),a(sha256(0))),c(pk_k(K2)))".into()),
         ("ET", "or_b(j(c(pk_k(K0))),a(c(pk_k(K1))))".into()),
         ("ET", "or_d(j(c(pk_k(K0))),c(pk_k(K1)))".into()),
+        // raw pkh of an UNCOMPRESSED key (the satisfier reveals the 65-byte key)
+        ("BL", "c(raw_pkh(100))".into()),
+        ("BL", "and_v(v(c(raw_pkh(100))),c(pk_k(K0)))".into()),
+        ("BL", "or_d(c(raw_pkh(100)),c(pk_k(K1)))".into()),
     ]
 }
 
@@ -518,7 +535,77 @@ fn limit_corpus() -> Vec<(CtxK, String)> {
     v.push((CtxK::Tap, format!("and_v(v(thresh(1,andor(0,1,0),s(sha256(0)))),{})", ma(996))));
     v.push((CtxK::Tap, format!("and_v(v(thresh(1,andor(0,1,0),s(sha256(0)))),{})", ma(997))));
     v.push((CtxK::Tap, format!("and_v(v(thresh(1,andor(0,1,0),s(sha256(0)))),{})", ma(998))));
+    // a leaf with 251 / 252 / 253 witness items (CompactSize of the item count changes at 253)
+    for n in [250usize, 251, 252, 253] { v.push((CtxK::Tap, ma(n))); }
+    // Legacy scriptSig limit 1650.  The scriptSig of the sh() spend is the satisfaction (107 bytes
+    // per link) PLUS the redeem script push (25 bytes per link + 3): 12 links = 1587, 13 = 1719.
+    // REGRESSION (fixed in 8350e9ca): the library compared the satisfaction alone with 1650 and
+    // declared the 13- and 15-link chains within the limits; they must now be REFUSED by
+    // within_resource_limits (C wrl = 0; if they are declared again, J declared / J bound /
+    // J desclim fail on them).  16 links were refused before as well (1712 > 1650).
+    for n in [12usize, 13, 15, 16] {
+        let mut s = format!("c(pk_h({}))", n - 1);
+        for i in (0..n - 1).rev() { s = format!("and_v(v(c(pk_h({}))),{})", i, s); }
+        v.push((CtxK::Legacy, s));
+    }
+    // ... and the exact boundary: 12 links + 63 / 64 bytes of v:older padding = 1650 / 1651
+    for (a, b) in [(21usize, 0usize), (20, 1)] {
+        let mut s = "c(pk_h(11))".to_string();
+        for _ in 0..a { s = format!("and_v(v(older(1)),{})", s); }
+        for _ in 0..b { s = format!("and_v(v(older(17)),{})", s); }
+        for i in (0..11).rev() { s = format!("and_v(v(c(pk_h({}))),{})", i, s); }
+        v.push((CtxK::Legacy, s));
+    }
+    // opcode limit 201 in Legacy and Bare (separate implementations): CHECKSIG + n x 0NOTEQUAL
+    for ctx in [CtxK::Legacy, CtxK::Bare] {
+        for n in [199usize, 200, 201] {
+            let mut s = "c(pk_k(0))".to_string();
+            for _ in 0..n { s = format!("n({})", s); }
+            v.push((ctx, s));
+        }
+    }
+    // ... and crossed by the keys of an executed CHECKMULTISIG: 1 + n keys + 1 + w wrappers
+    {
+        let keys = |n: usize| (0..n).map(|i| i.to_string()).collect::<Vec<_>>().join(",");
+        for w in [178usize, 179, 180] {          // Bare, 20 keys: 21 + 1 + w = 200 / 201 / 202
+            let mut s = "c(pk_k(0))".to_string();
+            for _ in 0..w { s = format!("n({})", s); }
+            v.push((CtxK::Bare, format!("and_v(v(multi(1,{})),{})", keys(20), s)));
+        }
+        for w in [190usize, 191, 192] {          // Legacy, 8 keys (<= 520 bytes): 9 + 1 + w = 200 / 201 / 202
+            let mut s = "c(pk_k(0))".to_string();
+            for _ in 0..w { s = format!("n({})", s); }
+            v.push((CtxK::Legacy, format!("and_v(v(multi(1,{})),{})", keys(8), s)));
+        }
+    }
+    // Segwitv0 standard script size 3600: five v:multi(1,<20 keys>) (684 bytes each) + padding
+    for target in [3599usize, 3600, 3601] { v.push((CtxK::Segwitv0, sized_script(target, 5))); }
     v
+}
+
+/// a script of exactly `target` bytes: `nmulti` copies of v:multi(1,<20 keys>) (684 bytes each),
+/// then v:pk (35 bytes), v:older(1) (3), v:older(17) (4) and a final pk (35)
+fn sized_script(target: usize, nmulti: usize) -> String {
+    let base = 684 * nmulti + 35;
+    assert!(target >= base);
+    let rest = target - base;
+    // rest = 35 p + 3 a + 4 b with few timelock wrappers
+    let mut best: Option<(usize, usize, usize)> = None;
+    for p in (0..=rest / 35).rev() {
+        let r = rest - 35 * p;
+        for b in 0..=r / 4 {
+            if (r - 4 * b) % 3 == 0 { let a = (r - 4 * b) / 3; if best.map(|(_, x, y)| a + b < x + y).unwrap_or(true) { best = Some((p, a, b)); } }
+        }
+        if best.is_some() { break; }
+    }
+    let (p, a, b) = best.expect("representable");
+    let mut s = "c(pk_k(0))".to_string();
+    for _ in 0..a { s = format!("and_v(v(older(1)),{})", s); }
+    for _ in 0..b { s = format!("and_v(v(older(17)),{})", s); }
+    for i in 0..p { s = format!("and_v(v(c(pk_k({}))),{})", 1 + i % 30, s); }
+    let keys = (0..20).map(|i| i.to_string()).collect::<Vec<_>>().join(",");
+    for _ in 0..nmulti { s = format!("and_v(v(multi(1,{})),{})", keys, s); }
+    s
 }
 
 fn subst(s: &str, ctx: CtxK) -> String {
@@ -572,6 +659,20 @@ enum DMode {
     PlanItems,
 }
 
+/// sh(ms) / wsh(ms) / sh(wsh(ms)) whose miniscript the library declares `within_resource_limits`
+fn declared_within<Pk: HKey9>(desc: &Descriptor<Pk>) -> bool {
+    use miniscript::descriptor::ShInner;
+    match desc {
+        Descriptor::Wsh(w) => w.as_inner().within_resource_limits(),
+        Descriptor::Sh(sh) => match sh.as_inner() {
+            ShInner::Ms(ms) => ms.within_resource_limits(),
+            ShInner::Wsh(w) => w.as_inner().within_resource_limits(),
+            ShInner::Wpkh(_) => false,
+        },
+        _ => false,
+    }
+}
+
 fn finish_desc<Pk: HKey9>(out: &mut Out, kind: &str, input: &str, desc: &Descriptor<Pk>, assets: &Assets, mall: bool, pad: bool, keyspend: bool, dm: DMode)
 where for<'a> Sat9<'a>: Satisfier<Pk>
 {
@@ -596,6 +697,20 @@ where for<'a> Sat9<'a>: Satisfier<Pk>
         let txin = miniscript::bitcoin::TxIn { script_sig: ss.clone(), witness: miniscript::bitcoin::Witness::from_slice(&wit), ..Default::default() };
         let delta = txin.segwit_weight().to_wu() - miniscript::bitcoin::TxIn::default().segwit_weight().to_wu();
         out.line(&format!("J descw {} | {} {} claimed={} txin_delta={}", head, hex(ss.as_bytes()), wit_wire(&wit), claimed, delta), "ok");
+        // a descriptor that passes `sanity_check` is declared within the standardness limits of
+        // its kind: the real spend is measured against them
+        if declared_within(desc) {
+            out.line(&format!("J desclim {} | {} {}", head, hex(ss.as_bytes()), wit_wire(&wit)), "ok");
+        }
+        // the deprecated figure ("upper bound on the weight of a satisfying witness ... includes the
+        // weight of the VarInts encoding the scriptSig and witness stack length")
+        #[allow(deprecated)]
+        let old = std::panic::catch_unwind(std::panic::AssertUnwindSafe(|| desc.max_satisfaction_weight()));
+        match old {
+            Ok(Ok(wgt)) => out.line(&format!("J descwold {} | {} {} claimed={}", head, hex(ss.as_bytes()), wit_wire(&wit), wgt), "ok"),
+            Ok(Err(_)) => out.line(&format!("J descwold {} | {} {} claimed=none", head, hex(ss.as_bytes()), wit_wire(&wit)), "ok"),
+            Err(_) => out.line(&format!("J nopanic desc/max_satisfaction_weight {} PANIC", head), "ok"),
+        }
     } else {
         let p = std::panic::catch_unwind(std::panic::AssertUnwindSafe(|| {
             if mall { desc.clone().into_plan_mall(&sat) } else { desc.clone().into_plan(&sat) }
@@ -678,7 +793,7 @@ fn desc_ms_cases(out: &mut Out, ctx: CtxK, node: &Node, cap: usize, plan: Option
 /* ---- tr() with deeper and unbalanced trees ---- */
 
 /// tree shapes as the list of leaf depths in left-to-right order
-const TR_SHAPES: [(&str, &[u8]); 7] = [
+const TR_SHAPES: [(&str, &[u8]); 8] = [
     ("comb-r4", &[1, 2, 3, 4, 4]),
     ("comb-l4", &[4, 4, 3, 2, 1]),
     ("bal2", &[2, 2, 2, 2]),
@@ -686,6 +801,8 @@ const TR_SHAPES: [(&str, &[u8]); 7] = [
     ("mix-a", &[2, 3, 3, 1]),
     ("mix-b", &[1, 3, 3, 2]),
     ("mix-c", &[3, 4, 4, 2, 1]),
+    // control block 33 + 32 x 8 = 289 bytes (> 252: three-byte CompactSize)
+    ("comb-r8", &[1, 2, 3, 4, 5, 6, 7, 8, 8]),
 ];
 
 fn build_tree(depths: &[u8], idx: &mut usize, d: u8, leaves: &[Arc<Miniscript<XOnlyPublicKey, Tap>>]) -> TapTree<XOnlyPublicKey> {
@@ -808,9 +925,35 @@ pub fn run(out: &mut Out, thorough: bool, seed: u64) {
             }
         }
     }
+    // ---- the shared dimension corpus (hash kinds, lock units, uncompressed keys in every key
+    //      position, raw pkh of an uncompressed key, one-child thresholds, ...) in every tier
+    for ctx in CtxK::ALL {
+        for node in ast::dimension_corpus(ctx) {
+            n_static += 1;
+            out.count("dimension-corpus script");
+            with_ctx9!(ctx, static_lines(out, ctx, &node));
+            if with_ctx9!(ctx, base_of(&node)) == Some(Base::B) {
+                n_judged_scripts += 1;
+                with_ctx9!(ctx, bound_all(out, ctx, &node, if thorough { 24 } else { 8 }));
+                if node.size() <= 25 { desc_pool.push((ctx, node.clone())); }
+            }
+        }
+    }
+    // ---- Legacy scripts whose size sits on a push-opcode boundary (sh: direct push / PUSHDATA1 /
+    //      PUSHDATA2 of the redeem script) ----------------------------------------------------------
+    for target in [74usize, 75, 76, 77, 254, 255, 256, 257] {
+        let node = parse_node(&sized_script(target, 0));
+        n_static += 1;
+        n_judged_scripts += 1;
+        out.count("push-boundary script");
+        static_lines::<PublicKey, Legacy>(out, CtxK::Legacy, &node);
+        bound_all::<PublicKey, Legacy>(out, CtxK::Legacy, &node, 2);
+        desc_pool.push((CtxK::Legacy, node));
+    }
     // ---- scripts around the declared limits ---------------------------------------------------
     for (ctx, sc) in limit_corpus() {
         let node = parse_node(&sc);
+        if node.size() <= 120 && ctx != CtxK::Tap { desc_pool.push((ctx, node.clone())); }
         n_static += 1;
         n_judged_scripts += 1;
         out.count("limit-corpus script");
@@ -873,6 +1016,13 @@ pub fn run(out: &mut Out, thorough: bool, seed: u64) {
     }
     desc_key_cases(out, false);
     desc_ms_cases(out, CtxK::Tap, &parse_node("thresh(1,c(pk_k(200)),a(0),a(0))"), 4, None);
+    // a tap leaf with 251..253 witness items: weight and plan sizes
+    for n in [251usize, 252, 253] {
+        let ks: Vec<String> = (0..n).map(|i| (200 + i).to_string()).collect();
+        let node = parse_node(&format!("multi_a(1,{})", ks.join(",")));
+        desc_ms_cases(out, CtxK::Tap, &node, 1, None);
+        desc_ms_cases(out, CtxK::Tap, &node, 1, Some(true));
+    }
 
     // ---- plans: keyed corpus (wsh / sh-wsh / sh-wpkh plan sizes are known findings) -------------
     desc_key_cases(out, true);
@@ -889,7 +1039,7 @@ pub fn run(out: &mut Out, thorough: bool, seed: u64) {
 
     out.note("distinct_nontrivial", (n_static + n_judged_scripts).to_string());
     out.note("domain", format!(
-        "{} nodes of all base types (C ext, C scriptsize): every context, quota-enumerated to depth {} + random larger + hand-written corpus (lock values at every script_num_size boundary, multi k,n around 16/17/20, multi_a n<=40, thresh n<=20 incl. unsatisfiable children, and_v chains to depth 20); {} B-typed scripts judged on every satisfaction the library produces for asset subsets x {{nonmall,mall}} x {{library-length, maximal-length (71-byte DER + sighash)}} ECDSA signatures; descriptors wsh/sh-wsh/sh/bare/tr (1 leaf, 2 leaves, 7 shapes of depth 2..4 with the script at every position, spent through every leaf and the key path)/pkh/wpkh/sh-wpkh for max_weight_to_satisfy; plan sizes on the same pool (wsh/sh-wsh: witness items only) plus the keyed corpus; public accessors max_satisfaction_size / max_satisfaction_witness_elements / within_resource_limits / validate(resource limits of CONSENSUS, SANE) on every node (C) and every satisfaction (J). Every generated script is judged (no class is skipped); the plan-size corpus contains the three known unfixed Plan findings (wsh, sh-wsh, sh-wpkh).",
+        "{} nodes of all base types (C ext, C scriptsize): every context, quota-enumerated to depth {} + random larger + hand-written corpus (lock values at every script_num_size boundary, multi k,n around 16/17/20, multi_a n<=40, thresh n<=20 incl. unsatisfiable children, and_v chains to depth 20); {} B-typed scripts judged on every satisfaction the library produces for asset subsets x {{nonmall,mall}} x {{library-length, maximal-length (71-byte DER + sighash)}} ECDSA signatures; descriptors wsh/sh-wsh/sh/bare/tr (1 leaf, 2 leaves, 8 shapes of depth 2..8 with the script at every position, spent through every leaf and the key path)/pkh/wpkh/sh-wpkh for max_weight_to_satisfy, the deprecated max_satisfaction_weight and (sh/wsh/sh-wsh) the standardness limits of the produced spend; plan sizes on the same pool (wsh/sh-wsh: witness items only) plus the keyed corpus; public accessors max_satisfaction_size / max_satisfaction_witness_elements / within_resource_limits / validate(resource limits of CONSENSUS, SANE) on every node (C) and every satisfaction (J). Boundary classes in every tier: ast::dimension_corpus per context; raw pkh of an uncompressed key; Legacy pk_h chains around the 1650-byte scriptSig limit; 200/201/202 opcodes in Legacy and Bare (wrapper towers and executed CHECKMULTISIG keys); Legacy scripts of 74..77 / 254..257 bytes in sh(); tap leaves with 250..253 witness items; Segwitv0 scripts of 3599/3600/3601 bytes; from_ast acceptance of every node is compared with the model (C accept). Every generated script is judged (no class is skipped); the plan-size corpus contains the three known unfixed Plan findings (wsh, sh-wsh, sh-wpkh).",
         n_static, if thorough { 4 } else { 3 }, n_judged_scripts));
 }
 
